@@ -3,6 +3,8 @@
 # scratch copy of the working tree state in /repo), run the quick check of its property and report
 # whether the check notices. /repo is restored after each step.
 cd /verif
+R=/tmp/regress-repo
+rm -rf $R; git clone -q /repo $R
 python3 - <<'PY' > /tmp/regress_list.txt
 import json
 k=json.load(open('/verif/known_findings.json'))
@@ -12,12 +14,13 @@ for f in k['findings']:
         seen.add(f['commit']); print(f['commit'],f['property'])
 PY
 while read c p; do
-  if ! git -C /repo revert -n $c >/dev/null 2>&1; then
-    git -C /repo revert --abort >/dev/null 2>&1; git -C /repo reset -q --hard HEAD
+  if ! git -C $R revert -n $c >/dev/null 2>&1; then
+    git -C $R revert --abort >/dev/null 2>&1; git -C $R reset -q --hard HEAD
     echo "REGRESS $c $p: revert does not apply cleanly (skipped)"; continue
   fi
-  out=$(timeout 1500 ./check $p quick -no-evidence 2>&1); code=$?
+  out=$(timeout 1500 ./check $p quick -no-evidence -repo $R 2>&1); code=$?
   v=$(echo "$out" | grep -c "^VIOLATION")
   echo "REGRESS $c $p: exit=$code violations=$v $(echo "$out" | grep -A1 '^VIOLATION' | sed -n 2p | cut -c1-160)"
-  git -C /repo reset -q --hard HEAD
+  git -C $R reset -q --hard HEAD
 done < /tmp/regress_list.txt
+rm -rf $R
